@@ -54,41 +54,68 @@ Print Assumptions C07d_rename.
    variable per leaf named by its instance path, types looked up in the declaring class, prefix rule,
    equations of every instance with references renamed to the leaf they denote, outermost modifier wins).
    For every PLAIN library — no extends clauses, no modifications; any nesting depth, repeated classes,
-   nested class definitions (looked up through enclosing scopes), scalar arrays, all prefixes, symbol
-   names duplicate free — whenever the model of pymoca's flatten returns a flat class, the specification
+   nested class definitions (looked up through enclosing scopes), type aliases `type T = Real;` of the
+   built-in types (anywhere in the class tree; the flattened class itself is not an alias), scalar arrays,
+   all prefixes, symbol names duplicate free — whenever the model of pymoca's flatten returns a flat class, the specification
    returns the SAME ordered variables and the SAME list of equations (hence the same multiset).  `clean`:
    no attribute and no pending modification on any flat symbol, so `var_of` forgets nothing. *)
 Theorem C07_refines_flat (root : list cdef) (top : path) (r : list fsym * list eqn) :
-  plain_lib root -> flatten root top = Ok r ->
+  plain_lib root ->
+  ~ (exists c lex Sp b, lookup (lex_scope root []) top = Some (c, lex, Sp, b) /\ alias c) ->
+  flatten root top = Ok r ->
   Forall clean (fst r) /\ PV.Lib.Inst.inst root top = Some (map var_of (fst r), snd r).
 Proof. exact (refines_flat root top r). Qed.
 Print Assumptions C07_refines_flat.
 
-(* the hypotheses are satisfiable by a non-trivial library: model A input Real x; output Real y[2]; equation
+(* the hypotheses are satisfiable by a non-trivial library: type I = Integer; model A input Real x; output Real y[2]; discrete I k; equation
    y[1] = x; end A;  model M  model N A c; end N;  A a; N b; input Real u;  equation a.x = u; b.c.x = a.y[1]; end M; *)
 Definition plain_ex : list cdef :=
-  [CDef 40 kModel [] [] [mkSym 41 [iReal] [pInput] [] []; mkSym 42 [iReal] [pOutput] [2%Z] []]
+  [CDef 50 kType [] [([iInteger], [])] [] [];
+   CDef 40 kModel [] [] [mkSym 41 [iReal] [pInput] [] []; mkSym 42 [iReal] [pOutput] [2%Z] []; mkSym 51 [50] [pDiscrete] [] []]
         [(ERef [42] [1%Z], ERef [41] [])];
    CDef 43 kModel [CDef 44 kModel [] [] [mkSym 45 [40] [] [] []] []] []
         [mkSym 46 [40] [] [] []; mkSym 47 [44] [] [] []; mkSym 48 [iReal] [pInput] [] []]
         [(ERef [46; 41] [], ERef [48] []); (ERef [47; 45; 41] [], ERef [46; 42] [1%Z])]]%positive.
 Example C07_refines_flat_example :
   plain_lib plain_ex /\
+  ~ (exists c lex Sp b, lookup (lex_scope plain_ex []) [43%positive] = Some (c, lex, Sp, b) /\ alias c) /\
   exists r, flatten plain_ex [43%positive] = Ok r /\
-    map f_name (fst r) = [[46; 41]; [46; 42]; [47; 45; 41]; [47; 45; 42]; [48]]%positive /\ length (snd r) = 4%nat.
+    map (fun s => (f_name s, f_type s)) (fst r) =
+      [([46; 41], [iReal]); ([46; 42], [iReal]); ([46; 51], [iInteger]); ([47; 45; 41], [iReal]);
+       ([47; 45; 42], [iReal]); ([47; 45; 51], [iInteger]); ([48], [iReal])]%positive /\ length (snd r) = 4%nat.
 Proof.
-  split.
-  - repeat (constructor; try (unfold kModel, kBuiltin, kType; discriminate); try (simpl; intuition discriminate)).
+  split; [|split].
+  - constructor; [right; constructor; [reflexivity | discriminate]|].
+    repeat (constructor; try (left; constructor); try (unfold kModel, kBuiltin, kType; discriminate);
+            try (simpl; intuition discriminate)).
+  - intros [c [lex [Sp [b [L A]]]]]. vm_compute in L. inversion L; subst. inversion A.
   - eexists. split; [vm_compute; reflexivity | split; reflexivity].
 Qed.
 Print Assumptions C07_refines_flat_example.
 
+(* flatten_extends_elems (step towards C07_refines_extends): one extends level — any number of extends
+   clauses, each resolving (find_base, tree.py:277) to an extends-free class that is not the class itself,
+   without clause modifiers.  flatten_extends returns the fold of merge_base over the bases in clause order
+   (nested classes and symbols by OrderedDict.update, equations appended), then the class's own elements
+   and the incoming environment: every inherited component is there exactly once (C07c), in this order. *)
+Theorem C07_flatten_extends_elems (root : list cdef) (f : nat) (c : cdef) (lex : path) (menv : list marg)
+        (bases : list (cdef * path)) :
+  Forall2 (simple_base root c lex) (c_exts c) bases -> c_kind c <> kBuiltin ->
+  flatten_extends root (S (S f)) c lex menv =
+  let x := fold_left merge_base bases (mkExt (c_kind c) [] [] [] []) in
+  Ok (mkExt (c_kind c)
+        (od_update e_key Pos.eqb (x_classes x) (entries_of (lex ++ [c_name c]) (c_classes c)))
+        (od_update s_name Pos.eqb (x_syms x) (c_syms c))
+        (x_eqs x ++ c_eqs c) (x_menv x ++ menv)).
+Proof. exact (flatten_extends_elems root f c lex menv bases). Qed.
+Print Assumptions C07_flatten_extends_elems.
+
 (* PARTIAL (stages 2 and 3 of the refinement are NOT proved).  Proved here: the extends-free step of
-   flatten_extends.  Missing for `flatten = inst` with extends under no_shadowing: (i) flatten_extends_elems —
-   for acyclic extends flatten_extends returns the symbols / equations / nested classes of the bases in
-   the order inst_go visits them (od_update vs v_update); (ii) lookup_no_shadow — under no_shadowing
+   flatten_extends.  Missing for `flatten = inst` with extends under no_shadowing: (i) flatten_extends_elems
+   for CHAINS (induction on fuel over the one-level theorem above) and its counterpart for inst_go
+   (od_update vs v_update); (ii) lookup_no_shadow — under no_shadowing
    lookup (me_of deriving ...) t = lookup (class_scope declaring ...) t for every inherited symbol type t;
-   (iii) alias leaves (`type T = Real`): collapses/extends_builtin vs elem_type.  Missing for modifications
+   (iii) alias of alias and aliases with modifiers in the type definition (attribute lemmas of C08).  Missing for modifications
    (C08_refines): apply_args_leaf — the list build puts on a leaf, applied per scope by modify_symbol,
    equals leaf_attrs (outer ++ decl ++ type-definition entries) after resolution, under the hypotheses
    that exclude the recorded defect shapes.  Both comparisons are made on every run instead (check_case,
